@@ -82,6 +82,7 @@ RECEIVERS = {'self'}       # names whose method calls are calls of the translate
 PGM_METHODS = None         # set below: the PGMCompiler table, for groups that call the compiler's API through a receiver
 EXPR_HOOKS = []            # per-group expression translations tried first: hook(tr, node, env) -> (effects, term) | None
 STMT_SKIP = []             # per-group statements that are deliberately not modelled: hook(stmt) -> bool
+STMT_HOOKS = []            # per-group statement translations tried first: hook(tr, stmt, rest, env, tail) -> term | None
 LOCAL_ELT = {}             # method -> {local list name: element type}: elements appended to it are coerced
 
 # ---- second group: small pure methods of other classes (Gen: PureSrc.v; equivalences: coq/tie/PureEquiv.v)
@@ -605,6 +606,10 @@ class Tr:
         s, rest = stmts[0], stmts[1:]
         if any(h(s) for h in STMT_SKIP):
             return self.T(rest, env, tail)
+        for hook in STMT_HOOKS:
+            r = hook(self, s, rest, env, tail)
+            if r is not None:
+                return r
         k = type(s).__name__
         fn = getattr(self, 'T_' + k, None)
         if fn is None:
@@ -697,6 +702,8 @@ class Tr:
                 and isinstance(s.value.args[0], ast.Constant) and s.value.args[0].value == 0 and not s.value.keywords):
             lst = cname(s.value.func.value.id)      # x = lst.pop(0): IndexError on an empty list
             return f'match {lst} with [] => raise EIndex | {cname(tg.id)} :: {lst} => {self.T(rest, env, tail)} end'
+        if isinstance(tg, ast.Name) and isinstance(s.value, ast.Call) and isinstance(s.value.func, ast.Name) and s.value.func.id == 'drained__':
+            return f'let {cname(tg.id)} := drained {cname(tg.id)} in {self.T(rest, env, tail)}'      # made by T_While only
         if isinstance(tg, ast.Name):
             if dump(s.value) == DVAR_ARGS:
                 return f'let {cname(tg.id)} := [PDvars variables] in {self.T(rest, env, tail)}'
@@ -782,6 +789,9 @@ class Tr:
         mutated = {n.func.value.id for b in s.body for n in ast.walk(b)
                    if isinstance(n, ast.Call) and isinstance(n.func, ast.Attribute) and isinstance(n.func.value, ast.Name)
                    and n.func.attr in ('append', 'extend') and n.func.value.id != 'self'}
+        mutated |= {n.func.value.value.id for b in s.body for n in ast.walk(b)
+                    if isinstance(n, ast.Call) and isinstance(n.func, ast.Attribute) and isinstance(n.func.value, ast.Subscript)
+                    and isinstance(n.func.value.value, ast.Name) and n.func.attr in ('append', 'extend')}
         assigned = sorted(set(assigned) | mutated)
         popped = {n.func.value.id for b in s.body for n in ast.walk(b)
                   if isinstance(n, ast.Call) and isinstance(n.func, ast.Attribute) and isinstance(n.func.value, ast.Name)
@@ -809,6 +819,32 @@ class Tr:
         loop = f'for_each {ti} {init} (fun {pat} {cpat} => {body_t})'
         binder = cpat if names else '_'
         return self.wrap(ei, f'bind ({loop}) (fun {binder} => {self.T(rest, env, tail)})')
+
+    def T_While(self, s, rest, env, tail):
+        # `while lst: x = lst.pop(0); body` with lst a local list the body does not touch: one iteration per element, in order,
+        # and the list is empty afterwards (also when the body raises part-way: the list is a local of the call)
+        if s.orelse or not isinstance(s.test, ast.Name) or not s.body:
+            raise Unsupported('while loop')
+        lst, first = s.test.id, s.body[0]
+        ok = (isinstance(first, ast.Assign) and len(first.targets) == 1 and isinstance(first.targets[0], ast.Name)
+              and dump(first.value) == f"Call(func=Attribute(value=Name(id='{lst}'), attr='pop'), args=[Constant(value=0)], keywords=[])")
+        if not ok:
+            raise Unsupported('while loop that does not start with x = lst.pop(0)')
+        for b in s.body[1:]:
+            for n in ast.walk(b):
+                if isinstance(n, ast.Name) and n.id == lst:
+                    raise Unsupported('while loop whose body uses the list it consumes')
+                if isinstance(n, (ast.Break, ast.Continue, ast.Return)):
+                    raise Unsupported('break / continue / return in a while loop')
+        loop = ast.For(target=ast.Name(id=first.targets[0].id, ctx=ast.Store()), iter=ast.Name(id=lst, ctx=ast.Load()),
+                       body=list(s.body[1:]) or [ast.Pass()], orelse=[])
+        ast.copy_location(loop, s)
+        ast.fix_missing_locations(loop)
+        emptied = ast.Assign(targets=[ast.Name(id=lst, ctx=ast.Store())],
+                             value=ast.Call(func=ast.Name(id='drained__', ctx=ast.Load()), args=[ast.Name(id=lst, ctx=ast.Load())], keywords=[]))
+        ast.copy_location(emptied, s)
+        ast.fix_missing_locations(emptied)
+        return self.T_For(loop, [emptied] + list(rest), env, tail)
 
     def T_Break(self, s, rest, env, tail):
         if not env.loop_ret:
@@ -1081,6 +1117,95 @@ AE_SPEC = dict(out='SrcAe.v', classes=[('TrenchWriter', 'tc'), ('UTrenchWriter',
                                        ('MarkerWriter', 'mk')])
 
 
+# ---- Device.append / extend / parse_objects (C16): the routing of dynamically typed items to the registered writers
+_DEV_WRITER = {'WaveguideWriter': 'KWg', 'NasuWriter': 'KNwg', 'TrenchWriter': 'KTc', 'UTrenchWriter': 'KUtc', 'MarkerWriter': 'KMk'}
+_DEV_TRY = ("Try(body=[Expr(value=Call(func=Attribute(value=Subscript(value=Attribute(value=Name(id='self'), attr='writers'), "
+            "slice=Name(id='k')), attr='extend'), args=[Name(id='e')], keywords=[]))], handlers=[ExceptHandler(type=Name(id='KeyError'), "
+            "name='err', body=[Raise(exc=Call(func=Name(id='TypeError'), args=[JoinedStr(values=[Constant(value='Found unexpected type '), "
+            "FormattedValue(value=Attribute(value=Name(id='err'), attr='args'), conversion=-1), Constant(value='.')])], keywords=[]))])], "
+            "orelse=[], finalbody=[])")
+
+
+def _h_dev(tr, e, env):
+    d = dump(e)
+    if d == "Call(func=Attribute(value=Name(id='copy'), attr='copy'), args=[Call(func=Name(id='flatten'), args=[List(elts=[Name(id='obj')])], keywords=[])], keywords=[])":
+        return [], '(flat [obj])'                                    # a new flat list of the leaves
+    if d == "Call(func=Attribute(value=Name(id='copy'), attr='copy'), args=[Name(id='obj')], keywords=[])":
+        return [], '(as_list obj)'                                   # a shallow copy of the list given
+    if d == "Call(func=Attribute(value=Name(id='collections'), attr='defaultdict'), args=[Name(id='list')], keywords=[])":
+        return [], '([] : list (key * list item))'
+    if isinstance(e, ast.Call) and isinstance(e.func, ast.Name) and not e.keywords:
+        if e.func.id == 'isinstance' and len(e.args) == 2 and isinstance(e.args[0], ast.Name) and dump(e.args[1]) == "Name(id='list')":
+            return [], f'(is_grp {cname(e.args[0].id)})'
+        if e.func.id == 'type' and len(e.args) == 1:
+            eff, t = tr.E(e.args[0], env)
+            return eff, f'(type_of {t})'
+    if isinstance(e, ast.Subscript) and isinstance(e.value, ast.Name) and isinstance(e.slice, ast.Constant) and e.slice.value == 0:
+        v = env.fresh('first')
+        return [(v, f'(item_first {cname(e.value.id)})')], v      # obj[0] of a python list: IndexError when it is empty
+    if d == "Call(func=Attribute(value=Name(id='d'), attr='items'), args=[], keywords=[])":
+        return [], 'd'                                               # a dict iterates in insertion order
+
+
+def _s_dev(tr, s, rest, env, tail):
+    if dump(s) == _DEV_TRY:
+        # self.writers[k].extend(e): the writer registered under exactly the type k; no such writer: KeyError -> TypeError
+        return f'writers_extend src_writers k e ;;; {tr.T(rest, env, tail)}'
+    if (isinstance(s, ast.Expr) and isinstance(s.value, ast.Call) and isinstance(s.value.func, ast.Attribute)
+            and s.value.func.attr == 'append' and isinstance(s.value.func.value, ast.Subscript)
+            and isinstance(s.value.func.value.value, ast.Name) and len(s.value.args) == 1 and not s.value.keywords):
+        # d[key].append(x) on a defaultdict(list)
+        dn = cname(s.value.func.value.value.id)
+        ek, tk = tr.E(s.value.func.value.slice, env)
+        ex, tx = tr.E(s.value.args[0], env)
+        return tr.wrap(ek + ex, f'let {dn} := dict_append {tk} {tx} {dn} in {tr.T(rest, env, tail)}')
+
+
+def translate_device(src_dir: str) -> str:
+    global METHODS, CFG_ATTRS, STATE_ATTRS, ORACLES, CFG_TYPE, LOCAL_ELT, EXTRA_PARAMS, MONAD, EXPR_HOOKS, STMT_SKIP, RECEIVERS, STMT_HOOKS
+    saved = (METHODS, CFG_ATTRS, STATE_ATTRS, ORACLES, CFG_TYPE, LOCAL_ELT, EXTRA_PARAMS, MONAD, EXPR_HOOKS, STMT_SKIP, RECEIVERS, STMT_HOOKS)
+    out = [PURE_PREAMBLE % ('device.py', ' Writers.Device', 'AeState SrcAe EquivAe DevState')]
+    try:
+        mod = ast.parse(pathlib.Path(src_dir, 'device.py').read_text())
+        cls = [n for n in mod.body if isinstance(n, ast.ClassDef) and n.name == 'Device']
+        if len(cls) != 1:
+            raise Unsupported('class Device not found in device.py')
+        # the registry built in __init__: {<object type>: <Writer>(<x>_list=[], **param), ...}
+        init = [n for n in cls[0].body if isinstance(n, ast.FunctionDef) and n.name == '__init__']
+        regs = [st for st in (init[0].body if init else []) if isinstance(st, ast.Assign) and len(st.targets) == 1
+                and dump(st.targets[0]) == "Attribute(value=Name(id='self'), attr='writers')"]
+        if len(regs) != 1 or not isinstance(regs[0].value, ast.Dict):
+            raise Unsupported('Device.__init__: expected exactly one `self.writers = {...}`')
+        others = [n for n in ast.walk(cls[0]) if isinstance(n, ast.Attribute) and n.attr == 'writers' and isinstance(n.ctx, ast.Store)]
+        if len(others) != 1:
+            raise Unsupported('self.writers is assigned more than once in Device')
+        pairs = []
+        for k, v in zip(regs[0].value.keys, regs[0].value.values):
+            if not (isinstance(k, ast.Name) and k.id in _AE_KIND and isinstance(v, ast.Call) and isinstance(v.func, ast.Name)
+                    and v.func.id in _DEV_WRITER and not v.args and len(v.keywords) == 2 and v.keywords[0].arg is not None
+                    and v.keywords[0].arg.endswith('_list') and dump(v.keywords[0].value) == 'List(elts=[])'
+                    and v.keywords[1].arg is None and dump(v.keywords[1].value) == "Name(id='param')"):
+                raise Unsupported(f'entry of self.writers: {dump(k)[:60]}: {dump(v)[:120]}')
+            pairs.append(f'({_AE_KIND[k.id]}, {_DEV_WRITER[v.func.id]})')
+        out.append('(* self.writers: the type an entry is registered under, and the writer class (named by the kind of its objects) *)\n')
+        out.append(f"Definition src_writers : list (kind * kind) := [{'; '.join(pairs)}].\n\n")
+        METHODS = {'parse_objects': ('method', [('unparsed_objects', 'list item')], 'unit'),
+                   'append': ('method', [('obj', 'item')], 'unit'), 'extend': ('method', [('obj', 'item')], 'unit')}
+        CFG_ATTRS, STATE_ATTRS, ORACLES = set(), {}, {}
+        CFG_TYPE, LOCAL_ELT, EXTRA_PARAMS, MONAD = 'unit', {}, '', 'MD'
+        EXPR_HOOKS, STMT_SKIP, RECEIVERS, STMT_HOOKS = [_h_dev], [], {'self'}, [_s_dev]
+        tr = Tr(cls[0])
+        for meth in METHODS:
+            text = tr.method(meth)
+            for m in METHODS:            # src_append / src_extend are the writers' dispatchers of EquivAe.v
+                text = text.replace(f'src_{m}', f'src_dev_{m}')
+            out.append(text)
+            out.append('\n')
+    finally:
+        METHODS, CFG_ATTRS, STATE_ATTRS, ORACLES, CFG_TYPE, LOCAL_ELT, EXTRA_PARAMS, MONAD, EXPR_HOOKS, STMT_SKIP, RECEIVERS, STMT_HOOKS = saved
+    return ''.join(out)
+
+
 PURE_PREAMBLE = '''(* GENERATED by harness/py2coq.py from src/femto/%s -- do not edit.
    Small pure methods (point count, Nasu pass order, number of wall passes, adjusted bridge); PureEquiv.v relates them to
    Path/Sampling.v, Writers/Writers.v, Trench/TreeProofs.v. *)
@@ -1187,6 +1312,8 @@ def main(argv):
                 name, text = g, translate_writers(str(src_dir))
             elif g == 'SrcAe.v':
                 name, text = g, translate_append_extend(str(src_dir))
+            elif g == 'SrcDev.v':
+                name, text = g, translate_device(str(src_dir))
             elif g == 'SrcFc.v':
                 name, text = g, translate_writers(str(src_dir), FARCALL_SPEC)
             else:
